@@ -676,8 +676,10 @@ def check_results(ctx: fw.Ctx, op: Operator, raw: dict, r: Any, G: g.Gen) -> tup
     ctx.count('results_outcome', kres)
     # proviso: no handler field reaches into status.<handler id>
     if kres == 'ok' and pres and not any(related(f, ('status', h)) for f in op.fields for h, _, _ in outcomes):
-        k0, e0 = op.essence(raw)
-        k1, e1 = op.essence(canon.merge7386(raw, {'status': pres.get('status')}) if 'status' in pres else raw)
+        # baseline = the body with the PENDING patch applied (its own effect, e.g. an injected `status: null`, is not the
+        # effect of deliver_results); after = the body with the pending patch AND the delivered results applied
+        k0, e0 = op.essence(canon.merge7386(raw, p_in) if p_in else raw)
+        k1, e1 = op.essence(canon.merge7386(raw, pres))
         # judged only where the essence is computable before and after: a (deliberately malformed) pending patch that
         # turns `status` into a non-mapping makes a handler's field status.* run through a non-mapping, and build raises
         # TypeError (the cherrypick observation; model and code agree on it in D:build / D:essence) — not a change.
